@@ -347,7 +347,7 @@ void run_case(Rng& rng)
 
 } // namespace
 
-std::uint64_t vfh_num_cases(bool thorough) { return thorough ? 40000 : 1200; }
+std::uint64_t vfh_num_cases(bool thorough) { return thorough ? 160000 : 1200; }
 void vfh_run_case(std::uint64_t idx, Rng& rng) { if (idx % 4 == 3) run_case(rng); else placement_case(rng); }
 void vfh_selftest()
 {
